@@ -314,6 +314,29 @@ def native_streams():
     return obs
 
 
+def native_int_float():
+    """B: integer-typed parameters denote the same distribution as their float copies (same seed -> same samples)"""
+    obs = []
+    cases = [("multivariate_student_t", lambda f: SD.multivariate_student_t(30, f([1, -2]), f([[2, 1], [1, 3]]), 3, 7)),
+             ("multivariate_student_t (lists)", lambda f: SD.multivariate_student_t(30, f([1, -2]).tolist(), f([[2, 1], [1, 3]]).tolist(), 3, 7)),
+             ("gstm", lambda f: SD.gstm(40, f(2).item(), 3, 7)),
+             ("celeux_one", lambda f: SD.celeux_one(30, 2, f(2).item(), 7)),
+             ("draw_gmm", lambda f: SD.draw_gmm(30, f([[0, 0], [6, -6]]), f([[[1, 0], [0, 4]], [[2, 1], [1, 2]]]), [0.5, 0.5], 7))]
+    for name, call in cases:
+        try:
+            a = call(lambda v: np.asarray(v, dtype=int))
+            b = call(lambda v: np.asarray(v, dtype=float))
+            A = a[0] if isinstance(a, tuple) else a
+            Bv = b[0] if isinstance(b, tuple) else b
+            ok = np.shape(A) == np.shape(Bv) and np.allclose(np.asarray(A, dtype=float), np.asarray(Bv, dtype=float), rtol=1e-12, atol=1e-12)
+            det = {"dtype with integer parameters": str(np.asarray(A).dtype), "first rows": [np.asarray(A)[:2].tolist(), np.asarray(Bv)[:2].tolist()], "replayed": not ok}
+        except Exception as e:
+            ok, det = False, {"exception": repr(e), "replayed": True}
+        obs.append(Ob(f"{name}: integer-typed parameters give the same samples as their float copies (seed 7)", PROVED if ok else REFUTED, "native", "B", det,
+                      fn="gemclus.data.synthetic_data." + name.split(" ")[0]))
+    return obs
+
+
 def bounded_moments(seed, tier):
     """B: empirical moments of large samples within 6-sigma bands of the documented parameters; seed determinism."""
     obs = []
